@@ -278,6 +278,17 @@ theorem go_structure :
     Facts.goLocksFirst = true ∧ Facts.unlockOnlyIfReversible = true ∧ Facts.isReversibleMonotone = true ∧
     Facts.startupThreadLocked = true ∧ Facts.goFailureReturns = true ∧ Facts.umaskUses = (1, 0) := by decide
 
+/-- what makes the jailed thread's mounts and root private: `goInChroot` asks for `CLONE_FS | CLONE_NEWNS`,
+    its set-up function makes the whole mount tree a recursive slave before switching the root (so nothing it
+    mounts propagates back to the namespace the other goroutines see), the body is run unchanged, and
+    nothing inside the body starts a goroutine -/
+theorem jail_setup_structure :
+    Facts.switchRootInSetup = true ∧ Facts.extractorUses = (3, 0) ∧
+    Facts.jailBodyRootsFound = true ∧ Facts.jailBodyGoStmts = [] ∧
+    (∃ fl fs ns, Facts.goInChrootFlags? = some fl ∧ Facts.clonefs? = some fs ∧ Facts.clonenewns? = some ns ∧
+      fl &&& fs = fs ∧ fl &&& ns = ns ∧ fs ≠ 0 ∧ ns ≠ 0) :=
+  ⟨by decide, by decide, by decide, by decide, _, _, _, rfl, rfl, rfl, by decide, by decide, by decide, by decide⟩
+
 /-- non-vacuity: a reversible call that is released, and an irreversible one that is not -/
 example : (goM 0x04000000 ⟨fun _ => true, true, true, fun _ => true⟩).released = true ∧
           (goM 0x20200 ⟨fun _ => true, true, true, fun _ => true⟩).released = false ∧
